@@ -1,6 +1,9 @@
 package helpers
 
-import "fmt"
+import (
+	"fmt"
+	"reflect"
+)
 
 // IsTruthy converts a value to boolean following Vue semantics.
 // For bound attributes, false values should not render the attribute.
@@ -19,6 +22,21 @@ func IsTruthy(val any) bool {
 	case nil:
 		return false
 	default:
+		// A value of a named type (type Count int, type Flag bool, type Label string)
+		// is as truthy as a plain value of its kind
+		rv := reflect.ValueOf(val)
+		switch rv.Kind() {
+		case reflect.Bool:
+			return rv.Bool()
+		case reflect.String:
+			return rv.String() != "" && rv.String() != "false"
+		case reflect.Int, reflect.Int8, reflect.Int16, reflect.Int32, reflect.Int64:
+			return rv.Int() != 0
+		case reflect.Uint, reflect.Uint8, reflect.Uint16, reflect.Uint32, reflect.Uint64, reflect.Uintptr:
+			return rv.Uint() != 0
+		case reflect.Float32, reflect.Float64:
+			return rv.Float() != 0
+		}
 		return true
 	}
 }
